@@ -304,6 +304,8 @@ func runHistory(route string, prologue []action, acts []action) (string, string,
 		}
 	}
 	size1 := root.VerifSymtableSize()
+	nsyms := len(syms)
+	syms = selectSyms(syms)
 	eq, hash := equalities(fam, syms, script)
 	impl := strings.Join(outs, ",") + "|next=" + strings.Join(nexts, ",") + "|size=+" + strconv.Itoa(size1-size0) +
 		"|inv=" + inv + "|eq=" + eq + "|hash=" + hash
@@ -316,7 +318,18 @@ func runHistory(route string, prologue []action, acts []action) (string, string,
 	}
 	input := "route=" + route + ";c=" + strings.Join(counters, ",") + ";pre=" + strings.Join(pre, ",") +
 		";ops=" + strings.Join(mops, ",") + ";act=" + strings.Join(astr, ",") + ";pro=" + strings.Join(pro, ",")
-	return input, impl, len(syms) >= 2
+	return input, impl, nsyms >= 2
+}
+
+// selectSyms: the equality observables of a long history are taken over its first 8 and last 32
+// returned symbols (the model runner applies the same rule); every answer is still judged by the
+// specification, whatever the length
+func selectSyms(syms []symres) []symres {
+	if len(syms) <= 40 {
+		return syms
+	}
+	sel := append([]symres{}, syms[:8]...)
+	return append(sel, syms[len(syms)-32:]...)
 }
 
 // extended equality observables (routes apix and script): for the pairs i<j of returned symbols,
@@ -775,6 +788,58 @@ func main() {
 		acts := []action{{'D', 0, ""}, {'S', 1, q + strconv.Itoa(scriptN0)}, {'S', 0, p + strconv.Itoa(scriptN0+2)},
 			{'G', 0, p}, {'G', 1, q}, {'G', 1, p}, {'m', 0, ""}, {'G', 0, q}}
 		emitCase("script", nil, acts, "near-battery:gensym")
+	}
+
+	// crowded tables: long runs of taken candidate names (GenSymbol's search) and of taken numbers
+	// (MakeSymbol's search), longer than any plausible bound on the number of probes
+	rep := func(n int, f func(j int) action) []action {
+		var as []action
+		for j := 0; j < n; j++ {
+			as = append(as, f(j))
+		}
+		return as
+	}
+	runs := []int{70, 300, 1100}
+	if a.Tier == "thorough" {
+		runs = append(runs, 2100, 4200)
+	}
+	for _, n := range runs {
+		n := n
+		// a Duplicate made before the original generated n symbols, then it generates itself
+		acts := append([]action{{'D', 0, ""}}, rep(n, func(int) action { return action{'G', 0, "g"} })...)
+		acts = append(acts, action{'G', 1, "g"}, action{'G', 1, "g"}, action{'M', 1, "fresh"}, action{'G', 0, "g"}, action{'C', 1, ""}, action{'G', 2, "g"})
+		emitCase("api", nil, acts, "crowded:stale-duplicate")
+		// n names shaped like the next generated symbols were interned by scripts
+		acts = rep(n, func(j int) action { return action{'M', 0, shaped("g", n+j)} })
+		acts = append(acts, action{'G', 0, "g"}, action{'G', 0, "g"}, action{'D', 0, ""}, action{'G', 1, "g"})
+		emitCase("api", nil, acts, "crowded:preinterned-names")
+		// n numbers taken by the original after the Duplicate was made: MakeSymbol in the duplicate skips them all
+		acts = append([]action{{'D', 0, ""}, {'C', 0, ""}}, rep(n, func(j int) action { return action{'M', 0, "x" + strconv.Itoa(j)} })...)
+		acts = append(acts, action{'M', 1, "y"}, action{'M', 1, "z"}, action{'G', 2, "g"}, action{'M', 2, "x0"}, action{'M', 0, "w"})
+		emitCase("api", nil, acts, "crowded:taken-numbers")
+		// every member of a growing family generates from the same stale counter (what macro expansion does)
+		if n <= 1100 {
+			acts = nil
+			for j := 0; j < n && j < 400; j++ {
+				acts = append(acts, action{'D', 0, ""}, action{'G', j + 1, "g"})
+			}
+			acts = append(acts, action{'G', 0, "g"})
+			emitCase("api", nil, acts, "crowded:fresh-duplicates")
+		}
+	}
+	// script level: a macro that calls (gensym) expanded many times in one interpreter (each expansion
+	// runs in a fresh Duplicate with the same stale counter), and (gensym) after a Duplicate was made
+	nmac := []int{270}
+	if a.Tier == "thorough" {
+		nmac = []int{270, 600, 1100}
+	}
+	for _, n := range nmac {
+		acts := rep(n, func(int) action { return action{'m', 0, ""} })
+		acts = append(acts, action{'g', 0, ""}, action{'m', 0, ""}, action{'R', 0, "after"}, action{'m', 0, ""})
+		emitCase("script", nil, acts, "crowded:macro-expansions")
+		acts = append([]action{{'D', 0, ""}}, rep(n, func(int) action { return action{'g', 0, ""} })...)
+		acts = append(acts, action{'g', 1, ""}, action{'G', 1, "__gensym"}, action{'S', 1, "after"}, action{'g', 0, ""})
+		emitCase("script", nil, acts, "crowded:script-stale-duplicate")
 	}
 
 	// random long histories, API route
